@@ -64,6 +64,41 @@ def component_classes(rw: ast.Module) -> List[Tuple[str, str, ast.ClassDef]]:
     return out
 
 
+def update_agents_program(fn: ast.FunctionDef) -> List[Tuple[bool, str]]:
+    """`PrimaiteGame.update_agents(self, state)` as the program it is: it must be ONE loop `for agent_name in
+    self._reward_calculation_order:` whose body starts with `agent = self.agents[agent_name]` and continues with statements among
+    `agent.update_reward(state=state)`, `agent.save_reward_to_history()`, `agent.update_observation(state=state)`,
+    `agent.reward_function.total_reward += agent.reward_function.current_reward`, each possibly under `if self.step_counter > 0:`.
+    Returned in source order as (stands under that `if`?, operation); their ORDER and GUARDS are what Props/C10Calc.lean proves equal
+    to the model. Anything else raises."""
+    body = [st for st in fn.body if not (isinstance(st, ast.Expr) and isinstance(st.value, ast.Constant))]
+    if [a.arg for a in fn.args.args] != ["self", "state"] or len(body) != 1 or not isinstance(body[0], ast.For):
+        raise ValueError("update_agents is not a single loop over the agents")
+    loop = body[0]
+    if ast.unparse(loop.target) != "agent_name" or ast.unparse(loop.iter) != "self._reward_calculation_order" or loop.orelse:
+        raise ValueError("update_agents does not iterate `for agent_name in self._reward_calculation_order`")
+    stmts = list(loop.body)
+    if not stmts or ast.unparse(stmts[0]) != "agent = self.agents[agent_name]":
+        raise ValueError("update_agents' loop does not start with `agent = self.agents[agent_name]`")
+    ops = {"agent.update_reward(state=state)": "updateReward", "agent.save_reward_to_history()": "saveRewardToHistory",
+           "agent.update_observation(state=state)": "updateObservation",
+           "agent.reward_function.total_reward += agent.reward_function.current_reward": "addCurrentToTotal"}
+    out: List[Tuple[bool, str]] = []
+
+    def one(st: ast.stmt, guarded: bool):
+        src = ast.unparse(st)
+        if src in ops:
+            out.append((guarded, ops[src]))
+        elif isinstance(st, ast.If) and not guarded and ast.unparse(st.test) == "self.step_counter > 0" and not st.orelse:
+            for x in st.body:
+                one(x, True)
+        else:
+            raise ValueError(f"update_agents: unrecognised statement `{src[:80]}`")
+    for st in stmts[1:]:
+        one(st, False)
+    return out
+
+
 def shape_report() -> List[Tuple[str, bool, str]]:
     """(function, text-identical to the transcribed shape?, normalised source now) for the functions whose control flow the
     models transcribe by hand (deliberately blunt: any edit of these functions is reported)."""
@@ -75,8 +110,6 @@ def shape_report() -> List[Tuple[str, bool, str]]:
         "graph_has_cycle": find_function(sc, "graph_has_cycle"),
         "rf_init": find_method(class_def(rw, "RewardFunction"), "__init__"),
         "register_component": find_method(class_def(rw, "RewardFunction"), "register_component"),
-        "update": find_method(class_def(rw, "RewardFunction"), "update"),
-        "update_agents": find_method(class_def(gm, "PrimaiteGame"), "update_agents"),
         "setup_reward_sharing": find_method(class_def(gm, "PrimaiteGame"), "setup_reward_sharing"),
         "update_reward": find_method(class_def(parse("game/agent/interface.py"), "AbstractAgent"), "update_reward"),
         "save_reward_to_history": find_method(class_def(parse("game/agent/interface.py"), "AbstractAgent"), "save_reward_to_history"),
@@ -89,7 +122,7 @@ def shape_report() -> List[Tuple[str, bool, str]]:
 
 
 def emit() -> str:
-    from harness.extract.reward_calc import translate_calculate, translate_function
+    from harness.extract.reward_calc import translate_calculate, translate_function, translate_method
     rw = parse("game/agent/rewards.py")
     shapes = shape_report()
     shape_ok = {k: ok for k, ok, _ in shapes}
@@ -110,6 +143,16 @@ def emit() -> str:
     afn = find_function(parse("game/agent/utils.py"), "access_from_nested_dict")
     calc_defs.append("/-- `access_from_nested_dict(dictionary, keys)` (game/agent/utils.py), translated from the source -/\n"
                      "def fn_access_from_nested_dict : Py.Stmt :=\n  " + translate_function(afn, ["dictionary", "keys"]))
+    # `RewardFunction.update(state, last_action_response)`, translated (loop over the registered components, `total += w * calculate`)
+    calc_defs.append("/-- `RewardFunction.update` (game/agent/rewards.py), translated from the source -/\n"
+                     "def fn_RewardFunction_update : Py.Stmt :=\n  "
+                     + translate_method(find_method(class_def(rw, "RewardFunction"), "update"), ["reward_components", "current_reward"]))
+    # `PrimaiteGame.update_agents`: the order and the guards of the statements of its loop
+    prog = update_agents_program(find_method(class_def(parse("game/game.py"), "PrimaiteGame"), "update_agents"))
+    calc_defs.append("/-- the body of the loop of `PrimaiteGame.update_agents` (game/game.py), statement by statement: (under `if "
+                     "self.step_counter > 0`?, operation on the agent looked up by `self.agents[agent_name]`) -/\n"
+                     "def updateAgentsProgram : List (Bool × AOp) :=\n  ["
+                     + ", ".join(f"({'true' if g else 'false'}, .{o})" for g, o in prog) + "]")
     # sticky defaults
     sticky = []
     for cname, _disc, cls in classes:
@@ -174,13 +217,8 @@ def rewardStarts : List (String × Rat) := [{", ".join(f"({lean_str(c)}, {v})" f
 /-! Functions whose control flow Model/RewardGraph.lean and Model/Reward.lean transcribe by hand: `true` = the normalised
 source (docstrings, annotations, logging removed) is text-identical to the transcribed shape (harness/extract/reward_shapes.py).
 Deliberately blunt; the semantic ties are the differential rigs (R-rew, exhaustive graph family) for these functions. -/
-/-- `RewardFunction.update` is `total = 0.0; for (comp, weight): total += weight * comp.calculate(...); current_reward = total` -/
-def updateIsWeightedLeftFold : Bool := {b(shape_ok["update"])}
 /-- `RewardFunction.__init__`: `self.register_component(component=rew_instance, weight=rew_config.weight)`; `register_component` appends -/
 def weightPassedUnchanged : Bool := {b(shape_ok["rf_init"] and shape_ok["register_component"])}
-/-- `update_agents`: for each name of `_reward_calculation_order`: `update_reward`, `save_reward_to_history` (both under
-`step_counter > 0`), `update_observation`, `total_reward += current_reward` -/
-def updateAgentsShape : Bool := {b(shape_ok["update_agents"])}
 /-- `update_reward` passes `self.history[-1]`; `save_reward_to_history` writes `current_reward` into `self.history[-1].reward` -/
 def agentRewardPlumbing : Bool := {b(shape_ok["update_reward"] and shape_ok["save_reward_to_history"])}
 /-- `setup_reward_sharing`: one `set` per agent, every `SharedReward` component adds its `agent_name` and gets the callback reading
